@@ -188,6 +188,46 @@ Proof.
   - exists f. rewrite (rnd_id F). split; [exact E|exact Hf].
 Qed.
 
+
+(* ---------------------------------------------------------------------------------------------- *)
+(* partition of unity: each round of the recurrence preserves the sum of the entries *)
+Fixpoint sumK (l0 : list K) : K := match l0 with [] => zero | a :: r => add a (sumK r) end.
+
+Lemma round_sum j old : (Z.of_nat j <= l) -> l + Z.of_nat j + 1 < nknots ->
+  forall m i, (i + m = S j)%nat ->
+  sumK (map (newv j old) (seq i (S m))) = add (savedf j old i) (sumK (map old (seq i m))).
+Proof.
+  intros Hj0 Hj1. induction m as [|m IH]; intros i Him.
+  - cbn [seq map sumK]. unfold newv. replace (i <=? j)%nat with false by (symmetry; apply Nat.leb_gt; lia). reflexivity.
+  - change (seq i (S (S m))) with (i :: seq (S i) (S m)). change (seq i (S m)) with (i :: seq (S i) m).
+    rewrite !map_cons. cbn [sumK]. rewrite IH by lia.
+    unfold newv. replace (i <=? j)%nat with true by (symmetry; apply Nat.leb_le; lia).
+    change (savedf j old (S i)) with (mul (dl kn l x (j - i)) (term j old i)).
+    unfold term, dr, dl.
+    assert (N : sub (kn (l + Z.of_nat i + 1)) (kn (l - Z.of_nat (j - i))) <> zero) by (apply kdiff_nz; lia).
+    field. intro E. apply N. rewrite <- E. ring.
+Qed.
+
+Lemma rounds_sum : forall count jlow old, (Z.of_nat (jlow + count) <= l + 1) -> l + Z.of_nat (jlow + count) < nknots ->
+  sumK (deboor_rounds kn l x jlow count (map old (seq 0 (S jlow)))) = sumK (map old (seq 0 (S jlow))).
+Proof.
+  induction count as [|c IH]; intros jlow old H0 H1; [reflexivity|].
+  cbn [deboor_rounds]. rewrite round_struct.
+  rewrite (IH (S jlow) (newv jlow old)) by lia.
+  rewrite (round_sum jlow old ltac:(lia) ltac:(lia) (S jlow) 0%nat ltac:(lia)).
+  cbn [savedf]. ring.
+Qed.
+
+(* in the fully supported range the n+1 local basis values sum to one *)
+Lemma deboor_sum_one n : Z.of_nat n <= l -> l + Z.of_nat n + 1 < nknots ->
+  sumK (deboor_rounds kn l x 0 n [rnd one]) = one.
+Proof.
+  intros H0 H1. rewrite (rnd_id F).
+  change [one] with (map (fun _ : nat => @one A) (seq 0 1)).
+  destruct n as [|n1]; [cbn [deboor_rounds map seq sumK]; ring|].
+  rewrite rounds_sum by lia. cbn [seq map sumK]. ring.
+Qed.
+
 End Piece.
 
 (* ---------------------------------------------------------------------------------------------- *)
@@ -353,6 +393,35 @@ Proof.
     + (* fully supported *)
       assert (Hlc : l = c) by lia.
       apply map_seq_eq. intros i Hi. cbn [Nat.add]. rewrite Hf; [unfold Bv; f_equal; lia | lia | split; lia].
+Qed.
+
+
+(* fully supported: the local basis sums to one *)
+Lemma bsplvb_simple_sum_one side c :
+  walk_post side c (adjust_left kn nknots (Z.of_nat n) x c) ->
+  adjust_left kn nknots (Z.of_nat n) x c = c ->
+  sumK (bsplvb_simple kn nknots n x c) = one.
+Proof.
+  unfold bsplvb_simple. intros [Hl0 [Hl1 [Hp [Hc Hrel]]]] E. rewrite E in *.
+  unfold rearrange.
+  replace (0 <? Z.of_nat n - c) with false by (symmetry; apply Z.ltb_ge; lia).
+  replace (0 <? c + Z.of_nat n + 2 - nknots) with false by (symmetry; apply Z.ltb_ge; lia).
+  apply (deboor_sum_one side c x Hl0 Hl1 Hp); lia.
+Qed.
+
+
+Lemma adjust_left_stays c : Z.of_nat n <= c <= nknots - Z.of_nat n - 2 -> le (kn c) x -> le x (kn (c + 1)) ->
+  adjust_left kn nknots (Z.of_nat n) x c = c.
+Proof.
+  intros Hc P1 P2. unfold adjust_left.
+  assert (E1 : (if c =? Z.of_nat n then walk_down kn (Z.to_nat (c + 1)) x c else c) = c).
+  { destruct (c =? Z.of_nat n); [|reflexivity].
+    destruct (Z.to_nat (c + 1)) as [|f] eqn:Ef; [reflexivity|]. cbn [walk_down].
+    rewrite (le_not_lt F _ _ P1), andb_false_r. reflexivity. }
+  rewrite E1.
+  destruct (c =? nknots - Z.of_nat n - 2); [|reflexivity].
+  destruct (Z.to_nat (nknots - 1 - c)) as [|f] eqn:Ef; [reflexivity|]. cbn [walk_up]. unfold gtb.
+  rewrite (le_not_lt F _ _ P2), andb_false_r. reflexivity.
 Qed.
 
 End Simple.
